@@ -5,6 +5,7 @@ import (
 	"fmt"
 	"os"
 	"sort"
+	"strings"
 	"sync"
 	"sync/atomic"
 	"testing"
@@ -39,17 +40,18 @@ type OutOp struct {
 }
 
 type C04Case struct {
-	Role    string       `json:"role"`
-	Buf     int          `json:"buf"`
-	Hangup  bool         `json:"hangup"`     // every peer closes its connection right after its last byte, without waiting
-	SlowNs  int64        `json:"slow_ns"`    // virtual time the incoming handler spends on each message (0: none)
-	AtOnce  bool         `json:"at_once"`    // all connections are pending at the listener at the same moment
-	ReusePair   []string `json:"reuse_pair,omitempty"` // two MDReqIDs: ONE message object is sent with the first, changed to the second and sent again while the peer is not reading (no other senders in such a case); both must arrive as handed over
-	GateEvery   int      `json:"gate_every"`   // > 0: the application's recorder subscribes per message type, and an all-types subscriber registered before it returns false for every k-th message: such a message is still delivered to its type's subscriber
-	RemoveAfter int      `json:"remove_after"` // > 0: every connection has a second all-types subscriber, which the application removes (with the id it was given) from inside the first one's k-th call; the first one must go on receiving
-	SetupNs int64        `json:"setup_ns"`   // acceptor: virtual time the new-client callback takes before it registers its handlers, while the peer's first bytes are already arriving
-	Conns   []ConnScript `json:"conns"`
-	Senders [][]OutOp    `json:"senders"`
+	Announce    int          `json:"announce,omitempty"` // the outgoing handler sends a raw announcement ahead of every k-th message it is offered (0: never)
+	Role        string       `json:"role"`
+	Buf         int          `json:"buf"`
+	Hangup      bool         `json:"hangup"`               // every peer closes its connection right after its last byte, without waiting
+	SlowNs      int64        `json:"slow_ns"`              // virtual time the incoming handler spends on each message (0: none)
+	AtOnce      bool         `json:"at_once"`              // all connections are pending at the listener at the same moment
+	ReusePair   []string     `json:"reuse_pair,omitempty"` // two MDReqIDs: ONE message object is sent with the first, changed to the second and sent again while the peer is not reading (no other senders in such a case); both must arrive as handed over
+	GateEvery   int          `json:"gate_every"`           // > 0: the application's recorder subscribes per message type, and an all-types subscriber registered before it returns false for every k-th message: such a message is still delivered to its type's subscriber
+	RemoveAfter int          `json:"remove_after"`         // > 0: every connection has a second all-types subscriber, which the application removes (with the id it was given) from inside the first one's k-th call; the first one must go on receiving
+	SetupNs     int64        `json:"setup_ns"`             // acceptor: virtual time the new-client callback takes before it registers its handlers, while the peer's first bytes are already arriving
+	Conns       []ConnScript `json:"conns"`
+	Senders     [][]OutOp    `json:"senders"`
 }
 
 var c04Types = []string{"D", "0", "A", "8", "V", "AE", "10", "1"}
@@ -207,6 +209,11 @@ func genC04(t *rapid.T) *C04Case {
 		}
 		c.Senders = append(c.Senders, ops)
 	}
+	if ns > 0 && rapid.IntRange(0, 3).Draw(t, "announce") == 0 {
+		// the application's outgoing handler announces every k-th message it is offered with a raw
+		// message of its own (SendRaw from inside the handler): the announcement leaves first
+		c.Announce = rapid.IntRange(1, 3).Draw(t, "announceEvery")
+	}
 	return c
 }
 
@@ -258,7 +265,8 @@ func checkC04(c *C04Case, rec *evid.Rec) (vs []pbt.Violation) {
 		recs[i] = &recorder{slow: time.Duration(c.SlowNs)}
 	}
 	conns := make([]*netsim.Conn, len(c.Conns))
-	var handOff []string // order in which the all-types outgoing handler saw messages
+	var handOff []string   // order in which the all-types outgoing handler saw messages
+	var announced [][]byte // raw announcements the outgoing handler sent itself
 	var hoMu sync.Mutex
 	var outErrs []string
 	var returned, connsClosed bool
@@ -272,7 +280,15 @@ func checkC04(c *C04Case, rec *evid.Rec) (vs []pbt.Violation) {
 			b, _ := msg.ToBytes()
 			hoMu.Lock()
 			handOff = append(handOff, msgID(b))
+			k := len(handOff)
 			hoMu.Unlock()
+			if c.Announce > 0 && k%c.Announce == 0 && h0 != nil {
+				ann := ref.Assemble(ref.StdTags, "FIX.4.4", "B", []ref.Tok{rig.F("11", "ann-"+msgID(b)), rig.F("58", "next: "+msgID(b))})
+				hoMu.Lock()
+				announced = append(announced, ann)
+				hoMu.Unlock()
+				_ = h0.SendRaw(ann)
+			}
 			return true
 		}
 		var ar *rig.AcceptorRig
@@ -551,6 +567,9 @@ func checkC04(c *C04Case, rec *evid.Rec) (vs []pbt.Violation) {
 			vs = append(vs, pbt.V("outbound-torn", "outbound stream ends with an incomplete message: %s", ref.Show(rest)))
 		}
 		handed := map[string][]byte{}
+		for _, a := range announced {
+			handed[msgID(a)] = a
+		}
 		var total int
 		for _, ops := range c.Senders {
 			for _, op := range ops {
@@ -579,6 +598,22 @@ func checkC04(c *C04Case, rec *evid.Rec) (vs []pbt.Violation) {
 					break
 				}
 			}
+		}
+		// an announcement leaves before the message it announces
+		pos := map[string]int{}
+		for i, id := range wireOrder {
+			pos[id] = i
+		}
+		for _, a := range announced {
+			id := msgID(a)
+			pa, oka := pos[id]
+			pm, okm := pos[strings.TrimPrefix(id, "ann-")]
+			if oka && okm && pa > pm && len(vs) == 0 {
+				vs = append(vs, pbt.V("outbound-announcement-order", "the announcement %s, sent with SendRaw from inside the outgoing handler, left after the message it announces (wire order %v)", id, wireOrder))
+			}
+		}
+		if len(announced) > 0 {
+			rec.Hist("raw-announcement-from-the-outgoing-handler")
 		}
 		// Send/SendBatch: wire order = hand-off order seen by the outgoing handler
 		viaHandler := map[string]bool{}
